@@ -10,7 +10,7 @@ log=/var/tmp/confirm.$id.$k.log
 : > $log
 git -C /repo worktree remove --force "$wt" >/dev/null 2>&1
 git -C /repo worktree add --detach "$wt" $BASE >>$log 2>&1 || { echo "$id-$k: worktree failed"; exit 2; }
-run_suite() { (cd "$wt" && PYTHONPATH="$wt/src" /venv/bin/python -m pytest -q -p no:cacheprovider --timeout=900 -p no:randomly 2>&1 | grep -E "^(FAILED|ERROR) |passed|failed" | sed -e 's/ - .*//' -e 's/ in [0-9.]*s.*=*$//' | sort); }
+run_suite() { (cd "$wt" && PYTHONPATH="$wt/src" /venv/bin/python -m pytest -q -p no:cacheprovider --timeout=900 -p no:randomly 2>&1 | grep -E "^(FAILED|ERROR) |passed|failed" | sed -e 's/ - .*//' -e 's/ in [0-9.]*s.*=*$//' -e 's/^=* *//' | sort); }
 if [ ! -f /var/tmp/confirm.baseline.$BASE ]; then run_suite > /var/tmp/confirm.baseline.$BASE; fi
 PYTHONPATH="$wt/src" /venv/bin/python "$src/demo$k.py" >>$log 2>&1; d0=$?
 git -C "$wt" apply "$src/patch$k.diff" >>$log 2>&1 || { echo "$id-$k: patch does not apply"; git -C /repo worktree remove --force "$wt"; exit 3; }
